@@ -3,7 +3,7 @@
   functions it uses) with lists for numpy arrays.  Import-free, executable.
 
   The model follows the *case analysis of the code* (searchsorted + index
-  arithmetic, the early returns, the missing clamp of `stop`), not what a
+  arithmetic, the early returns, the clamp of `stop` to `len` added by the repair 52439bb91), not what a
   gapped string "should" do: that is `Spec/Gapped.lean`.
 
   numpy `int32` arrays are modelled by `List Int` (no overflow: assumption).
